@@ -284,6 +284,21 @@ def possible_variants(ctx, p, term, adt, before=None):
     return poss
 
 
+def controller_admin_guard(p, ADMIN, who, before=None):
+    """the path decided, before effect index `before`, that `who` is the admin stored in the cw-controllers Admin `ADMIN`:
+    ADMIN.assert_admin(deps, who) = Ok, or ADMIN.is_admin(deps, who)? = true (what assert_admin does inside)"""
+    for c in p.conds:
+        if before is not None and c[3] > before:
+            continue
+        t, o = c[0], c[1]
+        if t[0] == "call" and t[1] == "Admin::assert_admin" and t[2][0] == ADMIN and t[2][-1] == who and o == "Ok":
+            return True
+        if t[0] == "vfield" and t[2] == "Ok" and t[1][0] == "call" and t[1][1] == "Admin::is_admin" and t[1][2][0] == ADMIN \
+                and t[1][2][-1] == who and o is True:
+            return True
+    return False
+
+
 def decided_ints(conds, term, before=None):
     """integer values the path decided `term` to be equal to, whichever way the test was spelled:
     `match term { 7 => .. }` (switch decision) or `term == 7` / `7 == term` evaluated true"""
@@ -323,12 +338,56 @@ def order_facts(conds, before=None):
 
 # ------------------------------------------------------------------------ responses
 def response_entries(path):
-    """messages of the returned response of an Ok path: list of (how, term); None if not a resp term"""
+    """messages of the returned response of an Ok path: list of (how, term); None if not a resp term.
+    A response accumulated by a loop that adds each element of a collection as one plain message (`for m in msgs
+    { res = res.add_message(m) }`) is reported as what it is: add_messages(collection)."""
     if not path.is_ok():
         return None
-    r = path.ok_value()
+    return _resp_entries(path, path.ok_value(), 0)
+
+
+def _resp_entries(path, r, depth):
+    if depth > 6:
+        return None
     if r[0] == "resp":
-        return list(r[2])
+        out = []
+        for h, m in r[2]:
+            if h == "base":
+                b = _resp_entries(path, m, depth + 1)
+                if b is None:
+                    return None
+                out += b
+            else:
+                out.append((h, m))
+        return out
+    if r[0] == "loopvar":
+        lk, var, k = r[1], r[2], r[3]
+        ent = [e for e in path.effects if e.kind == "loop_enter" and e.name == lk]
+        stp = [e for e in path.effects if e.kind == "loop_step" and e.name == lk]
+        if not ent or var not in ent[0].value:
+            return None
+        base = _resp_entries(path, ent[0].value[var], depth + 1)
+        if base is None:
+            return None
+        # the iterated collection: the loop variable whose next() drives the loop
+        ivar = None
+        for c in path.conds:
+            t = c[0]
+            if t[0] == "calli" and t[1] == "next" and t[2][0][0] == "loopvar" and t[2][0][1] == lk:
+                ivar = t[2][0][2]
+        if ivar is None or ivar not in ent[0].value:
+            return None
+        coll = ent[0].value[ivar]
+        if k >= 1:
+            if not stp or var not in stp[0].value:
+                return None
+            sv = stp[0].value[var]
+            elem = loop_elem(path, lk)
+            if not (sv[0] == "resp" and len(sv[2]) == 2 and sv[2][0] == ("base", ("loopvar", lk, var, 0))
+                    and sv[2][1][0] in ("msg", "submsg") and sv[2][1][1] == elem and sv[3] is None):
+                return None
+            return base + [(sv[2][1][0] + "s", coll)]
+        return base + [("msgs", coll)]
     return None
 
 
